@@ -15,7 +15,9 @@ DECIDED = ["R08c properties are removed with the element",
            "R09c remove_value removes exactly the found pair in place (no swap)",
            "R09d insert_or_replace reports None only after an insertion and Some(old) only after a replacement (DOM)",
            "R09e DbF64 equality / order / hashes agree (total_cmp and to_bits, no IEEE comparison of the raw floats)",
-           "R09f stable hashes are computed only by the hash-map implementation (WHO; identity is equality)"]
+           "R09f stable hashes are computed only by the hash-map implementation (WHO; identity is equality)",
+           "R09g no loop advances its index after removing the element at it",
+           "R09h values_by_keys sorts by requested position on every path (MUST)"]
 UNDECIDED = ["order and content of returned pairs over histories (needs execution)"]
 
 KV = "agdb::db::db_key_value::DbKeyValues::"
@@ -87,6 +89,85 @@ def float_key_rule(ctx, rule="R09e"):
                "through %s, no IEEE comparison of the raw floats" % sorted(names & set(via)) if ok else
                "`%s` %s: DbF64's equality, order and hashes no longer agree (NaN keys cannot be found, 0.0 / -0.0 collide)" % (
                    path, ("compares the raw f64 with %s" % raw) if raw else ("does not go through %s" % (via,))), b.where)
+
+
+def remove_while_scanning_rule(ctx, rule="R09g"):
+    """A loop that removes the element at the scan position must not advance the position in the same iteration: the
+    next element has moved INTO that position and would be skipped (removing two neighbouring keys in one query leaves
+    the second).  Decided per loop: a call of an index-based `remove(.., pos)` on a vector type, and an increment of the
+    same `pos` reachable from it without passing the loop head."""
+    fa = ctx.facts
+    n = 0
+    bad = []
+    for b in fa.bodies.values():
+        if b.crate != "agdb" or "::tests::" in b.path or "test_utilities" in b.path:
+            continue
+        loops = None
+        for i, t in cfg.calls(b):
+            nm = cfg.callee(t) or ""
+            if nm.split("::")[-1] != "remove" or not any(x in nm for x in ("Vec", "DbVecImpl", "VecImpl")) or len(t["a"]) < 2:
+                continue
+            idx = [cfg.op_place(a) for a in t["a"][1:]]
+            idx = [q for q in idx if q and b.local_ty(q[0]) in ("u64", "usize")]
+            if not idx:
+                continue
+            loops = loops if loops is not None else cfg.sccs(b)
+            for c in loops:
+                if i not in c:
+                    continue
+                n += 1
+                head = min(c)
+                root = cfg.origin(b, idx[0])[0]
+                incs = []
+                for bi, st in cfg.assigns(b):
+                    if bi in c and st["l"] == [root] and st["r"]["k"] in ("use", "bin"):
+                        src = st["r"]
+                        if src["k"] == "use":
+                            q = cfg.op_place(src["o"])
+                            ds = [d for d in cfg.defs(b).get(q[0], []) if d[0] == "assign" and d[2]["k"] == "bin"] if q else []
+                            src = ds[0][2] if ds else None
+                        if src and src["k"] == "bin" and src["op"].startswith("Add") and cfg.op_place(src["a"]) and \
+                                cfg.origin(b, cfg.op_place(src["a"]))[0] == root and (cfg.op_const(src["b"]) or {}).get("v") == 1:
+                            incs.append(bi)
+                succ = [x for x in cfg.succs(b, i) if x in c]
+                if incs and succ and cfg.find_path(b, succ, incs, avoid=[head]) is not None:
+                    bad.append((common.norm(b.npath), b.loc(i)))
+    for owner, loc in sorted(set(bad)):
+        ctx.ob(rule, "remove-then-advance:%s" % owner, False,
+               "`%s` removes the element at the scan position and then advances the position in the same iteration: the "
+               "element that moved into the gap is never examined (two neighbouring keys removed in one query: the second "
+               "stays)" % owner, loc, key="%s|%s|remove-then-advance|%s" % (ctx.pid, rule, owner))
+    ctx.ob(rule, "remove-then-advance:none", not bad,
+           "%d loops remove by index; none advances the index after a removal" % n if not bad else
+           "%d loop(s) skip the successor of a removed element" % len(set(bad)), nontrivial=False)
+
+
+def requested_order_rule(ctx, rule="R09h"):
+    """values_by_keys returns the pairs in the order of the REQUESTED keys: when the function pairs each stored pair with
+    the position of its key in the request, the sort by that position lies on every path from the pairing to the
+    result (it is not skipped "when nothing was filtered out": the stored order is not the requested order)."""
+    fa = ctx.facts
+    b = ctx.anchor(rule, "agdb::db::db_key_value::DbKeyValues::values_by_keys")
+    if not b:
+        return
+    pairing = any((cfg.callee_decl(t) or "").endswith("Iterator::position") for cb in fa.closures_of(b.path) for i, t in cfg.calls(cb)) or \
+        any((cfg.callee_decl(t) or "").endswith("Iterator::position") for i, t in cfg.calls(b))
+    if not pairing:
+        ctx.ob(rule, "values_by_keys:sorted-by-request", True,
+               "no position pairing: the result is not assembled from (position, pair) tuples (rule not applicable)", b.where,
+               nontrivial=False)
+        return
+    sorts = [i for i, t in cfg.calls(b) if (cfg.callee(t) or "").split("::")[-1].startswith("sort")]
+    colls = [i for i, t in cfg.calls(b) if (cfg.callee_decl(t) or "").endswith(("Iterator::collect", "FromIterator::from_iter"))]
+    okb, errb, unk = cfg.ret_class_blocks(b)
+    first = colls[:1]
+    p = cfg.find_path(b, first, okb + unk, avoid=sorts, leave_start=True) if first and sorts else [0]
+    ok = bool(sorts) and bool(first) and p is None
+    ctx.ob(rule, "values_by_keys:sorted-by-request", ok,
+           "the (position, pair) tuples are sorted by position on every path to the result" if ok else
+           "values_by_keys can return the pairs without sorting them by the position of their key in the request (%s): "
+           "selecting all keys of an element in another order returns map order" % (cfg.path_str(b, p) if p else "no sort call"),
+           b.where)
 
 
 def run(ctx):
@@ -175,4 +256,6 @@ def run(ctx):
     # a hash places an entry, equality identifies it (R09f, shared with C11)
     from rules import maps_common
     maps_common.hash_identity_rule(ctx)
+    remove_while_scanning_rule(ctx)
+    requested_order_rule(ctx)
     return 0
